@@ -47,10 +47,10 @@ def scenarios(ctx):
     quick = ctx.quick
     out = []
 
-    def add(name, program, bounds, **kw):
+    def add(name, program, bounds, app_bounds=None, **kw):
         for base in ("net", "app"):
             params = dict({"mode": "c07", "program": program, "faults": RETRIABLE, "baseline": base}, **kw)
-            out.append((f"{name}-{base}", params, bounds))
+            out.append((f"{name}-{base}", params, (app_bounds or bounds) if base == "app" else bounds))
 
     if quick:
         add("1p-commit", P_1C, SMALL2)
@@ -65,13 +65,14 @@ def scenarios(ctx):
         add("acl", P_ACL, [{"f": 1}, {"r": 1}], faults=["acl-topic"], liveness=False, family="acl")
     else:
         two = [{"f": 2}, {"f": 1, "r": 1}, {"r": 2}, {"p": 1, "f": 1}, {"p": 1, "r": 1}]
+        two2 = [{"f": 2}, {"f": 1, "r": 1}, {"r": 2}, {"p": 1}]
         add("1p-commit", P_1C, [{"f": 2, "r": 1}, {"f": 1, "r": 2}, {"p": 1, "f": 1, "r": 1}])
         add("1p-abort", P_1A, [{"f": 2, "r": 1}, {"f": 1, "r": 2}, {"p": 1, "f": 1}])
         add("2txn", P_2T, two)
-        add("abort-commit-offsets", P_AC, two)
-        add("concurrent-3p-offsets", P_CONC, two)
+        add("abort-commit-offsets", P_AC, two2, app_bounds=[{"f": 1, "r": 1}, {"r": 2}])
+        add("concurrent-3p-offsets", P_CONC, two2)
         add("3p-2txn", P_3P, [{"f": 1, "r": 1}, {"p": 1}])
-        add("offsets-only", P_OFFS, two)
+        add("offsets-only", P_OFFS, two2)
         add("race-end", P_RACE, two)
         add("kill", P_KILL, [{"k": 1, "f": 1}, {"k": 1, "r": 1}], kill=True, program_b=P_KILL_B)
         add("kill-1p", P_1C, [{"k": 1, "f": 2}, {"k": 1, "f": 1, "r": 1}, {"k": 1, "p": 1}], kill=True, program_b=P_1C)
